@@ -103,8 +103,11 @@ func runC16(c *core.Ctx, idx int) {
 		return
 	}
 	r := c.Rand()
+	// code and labels never change and never clash (derived from the id): their index entries exist exactly as long as
+	// the entity does, whatever was refused in between
 	def := &schema.StoreDef{Type: "widgets", BasePath: []string{"stores"}, Ext: true, System: true,
-		Fields: []schema.Field{{Name: "name", Kind: schema.KStr}}}
+		Fields: []schema.Field{{Name: "name", Kind: schema.KStr}, {Name: "code", Kind: schema.KStr}, {Name: "labels", Kind: schema.KList}},
+		Unique: []schema.UniqueDef{{Field: "code", Nullable: true}}, SetIdx: []string{"labels"}}
 	kid := &schema.StoreDef{Type: "widgets", Parent: "widgets", ChildPath: []string{"kid"}, Fields: []schema.Field{{Name: "extra", Kind: schema.KStr}}}
 	sc := schema.Build([]*schema.StoreDef{def, kid})
 	kst := sc.St("widgets/kid")
@@ -211,7 +214,7 @@ func runC16(c *core.Ctx, idx int) {
 		switch op.Kind {
 		case "create", "update", "patch":
 			name := op.Name
-			e := &schema.Ent{Id: op.Id, Typ: "widgets", V: map[string]any{"name": name}}
+			e := &schema.Ent{Id: op.Id, Typ: "widgets", V: map[string]any{"name": name, "code": "code-" + op.Id, "labels": []string{"l-" + op.Id, "shared"}}}
 			target := st
 			if op.Child {
 				target = kst
@@ -462,6 +465,19 @@ func runC16(c *core.Ctx, idx int) {
 			c.Eval()
 			if !reflect.DeepEqual(append([]string{}, raw...), append([]string{}, exp...)) && (len(raw) > 0 || len(exp) > 0) {
 				c.Violationf("C16 entity set differs from the model", map[string]any{"history": tailC16(hist, 5)}, "db %q model %q", raw, exp)
+			}
+			// the store's indexes mirror the entities: refused operations of a tolerant caller included
+			var shared []string
+			st.SetIdx["labels"].Read(tx, []byte("shared"), func(v []byte) { shared = append(shared, string(v)) })
+			sort.Strings(shared)
+			if !reflect.DeepEqual(append([]string{}, shared...), append([]string{}, exp...)) && (len(shared) > 0 || len(exp) > 0) {
+				c.Violationf("C16 set index differs from the entities after the transaction", map[string]any{"history": tailC16(hist, 5)}, "labels[shared] = %q, entities %q", shared, exp)
+			}
+			for _, id := range ids {
+				holder := string(st.Unique["code"].Read(tx, []byte("code-"+id)))
+				if _, live := model[id]; (live && holder != id) || (!live && holder != "") {
+					c.Violationf("C16 unique index differs from the entities after the transaction", map[string]any{"history": tailC16(hist, 5), "id": id}, "code[code-%s] = %q, entity present %v", id, holder, live)
+				}
 			}
 			for _, id := range exp {
 				e, found, err := st.Store.FindById(tx, id)
